@@ -88,16 +88,27 @@ class E2EWorld(World):
     def build(self):
         c = self.c
         st = E2EState()
-        st.src_data = core.prepare_files(c)
-        st.S = core.make_source(c, vfs=self.make_vfs("S"))
-        st.D = core.make_dest(c, vfs=self.make_vfs("D"))
-        probe = Probe(self.dest_path)
+        vs, vd = self.make_vfs("S"), self.make_vfs("D")
+        st.src_data = self.prepare(c, vs, vd)
+        st.S = core.make_source(c, vfs=vs)
+        st.D = core.make_dest(c, vfs=vd)
+        probe = self.make_probe(st)
         st.S.user.probe = probe
         st.D.user.probe = probe
         st.budget = self.K
+        st.cancels = self.cfg.get("cancels", 0)
         ok = st.S.h.put_request(core.put_request(c))
         assert ok
         return st
+
+    def prepare(self, c, vs, vd):
+        return core.prepare_files(c)
+
+    def make_probe(self, st):
+        return Probe(self.dest_path)
+
+    def read_dest(self, st):
+        return core.read_file(self.dest_path)
 
     def consts(self, st):
         out = core.entity_consts(st.S) + core.entity_consts(st.D)
@@ -141,6 +152,11 @@ class E2EWorld(World):
         for e in ("S", "D"):
             if clock.next_expiry(getattr(st, e).h) is not None:
                 evs.append(("expire", e))
+        if getattr(st, "cancels", 0) > 0:
+            for e in ("S", "D"):
+                ent = getattr(st, e)
+                if ent.h.state == CfdpState.BUSY and ent.h.transaction_id is not None:
+                    evs.append(("cancel", e))
         return evs
 
     def is_late(self, ev):
@@ -175,7 +191,7 @@ class E2EWorld(World):
             obs["out"] = [m.d for m in msgs]
             # the destination file at the moment a Finished PDU is emitted
             if who == "D" and any(m.d["T"] == "FIN" for m in msgs):
-                data = core.read_file(self.dest_path)
+                data = self.read_dest(st)
                 obs["file_at_fin"] = None if data is None else data.hex()
         if obs:
             out[who] = obs
@@ -211,6 +227,13 @@ class E2EWorld(World):
             clock.advance(ent.h, delta)
             out["dt"] = delta
             obs, msgs = ent.step(None)
+            self._entity_obs(st, ev[1], obs, msgs, out)
+            self._send(st, ev[1], msgs)
+        elif k == "cancel":
+            ent = getattr(st, ev[1])
+            st.cancels -= 1
+            obs, msgs, ret = ent.call(ent.h.cancel_request, ent.h.transaction_id)
+            obs["ret"] = ret
             self._entity_obs(st, ev[1], obs, msgs, out)
             self._send(st, ev[1], msgs)
         elif k == "recv":
@@ -258,11 +281,11 @@ class E2EWorld(World):
     def both_idle(self, st):
         return st.S.h.state == CfdpState.IDLE and st.D.h.state == CfdpState.IDLE
 
-    def dest_file(self):
-        return core.read_file(self.dest_path)
+    def dest_file(self, st=None):
+        return core.read_file(self.dest_path) if st is None else self.read_dest(st)
 
     def outcome(self, st):
-        data = self.dest_file()
+        data = self.dest_file(st)
         return {
             "S": st.S.h.states.step.name, "D": st.D.h.states.step.name,
             "finS": st.fin["S"], "finD": st.fin["D"],
@@ -278,7 +301,7 @@ class E2EWorld(World):
         if st.D.h.state != CfdpState.IDLE:
             why.append(f"receiver not idle (step {st.D.h.states.step.name})")
         if not c["md_only"]:
-            data = self.dest_file()
+            data = self.dest_file(st)
             if data is None:
                 why.append("destination file absent")
             elif data != st.src_data:
